@@ -669,3 +669,85 @@ impl From<MrtError> for std::io::Error {
         std::io::Error::other(e.to_string())
     }
 }
+
+//------------ Verification hooks --------------------------------------------
+//
+// Feature `verif-hooks`, add-only: expose, never alter, behaviour.
+
+/// What `MrtFileIn::run` hands to the rest of the application once it is
+/// running: the HTTP queue endpoint it registered, the sending side of its
+/// queue and the ingress id of the unit.
+#[cfg(feature = "verif-hooks")]
+pub struct VerifUnit {
+    pub processor: Arc<api::Processor>,
+    pub queue_tx: mpsc::Sender<QueueEntry>,
+    pub parent_id: IngressId,
+}
+
+#[cfg(feature = "verif-hooks")]
+impl MrtFileIn {
+    /// A unit configuration as the config file deserialises it.
+    pub fn verif_config(
+        files: Vec<PathBuf>,
+        update_path: Option<PathBuf>,
+    ) -> Self {
+        MrtFileIn {
+            filename: OneOrManyPaths::Many(
+                files.into_iter().map(Into::into).collect(),
+            ),
+            update_path: update_path.map(Into::into),
+        }
+    }
+
+    /// `run` from the point where the wait point has been passed, with the
+    /// two things it takes from its `Component` (name, ingress register)
+    /// supplied by the caller. Returns the pieces `run` registers with the
+    /// application and the future of the real `MrtInRunner::run`.
+    pub async fn verif_start(
+        self,
+        unit_name: &str,
+        gate: Gate,
+        ingresses: Arc<ingress::Register>,
+    ) -> (VerifUnit, impl Future<Output = Result<(), Terminated>>) {
+        let (queue_tx, queue_rx) = mpsc::channel::<QueueEntry>(1024);
+        let parent_id = ingresses.register();
+        let _ = ingresses.update_info(
+            parent_id,
+            IngressInfo::new()
+                .with_unit_name(unit_name)
+                .with_desc("mrt-file-in unit"),
+        );
+        for f in self.filename.iter() {
+            let _ = queue_tx.send((f, None)).await;
+        }
+        let endpoint_path = Arc::new(format!("/mrt/{}/", unit_name));
+        let processor = Arc::new(api::Processor::new(
+            endpoint_path,
+            self.update_path.clone().map(Into::into),
+            queue_tx.clone(),
+        ));
+        let unit = VerifUnit {
+            processor,
+            queue_tx: queue_tx.clone(),
+            parent_id,
+        };
+        let runner =
+            MrtInRunner::new(self, gate, ingresses, parent_id, queue_tx);
+        (unit, runner.run(queue_rx))
+    }
+}
+
+#[cfg(feature = "verif-hooks")]
+impl MrtInRunner {
+    /// `process_file` exactly as the queue loop calls it.
+    pub async fn verif_process_file(
+        gate: Gate,
+        ingresses: Arc<ingress::Register>,
+        parent_id: IngressId,
+        filename: PathBuf,
+    ) -> Result<(), String> {
+        Self::process_file(gate, ingresses, parent_id, filename)
+            .await
+            .map_err(|e| e.to_string())
+    }
+}
